@@ -5,6 +5,7 @@ CONSTANTS
   Layouts = {0, 1, 2, 3, 4}
   PreIds = {0, 1, 2}
   Pairs = FALSE
+  Hists = {"added"}
   Commands = {"lint", "ci"}
 INVARIANTS Inv_C08 Inv_OnlineList Inv_Registry
 CHECK_DEADLOCK FALSE
